@@ -332,6 +332,9 @@ def fpr_st(max_u=44.0):
         st.floats(0.16, 6.0).map(lambda u: 10 ** -u),
         st.floats(0.16, max_u).map(lambda u: 10 ** -u),
         st.integers(1, 1999).map(lambda i: i / 2000),
+        # rates whose optimal hash count -log2(p) is an integer or sits exactly half-way between two: the rounding of the hash count
+        # (and the float32 form of the rate the file stores) decides which one every reader of the file must derive again
+        st.integers(1, 40).map(lambda j: 2.0 ** (-j / 2)),
     )
 
 
